@@ -281,6 +281,20 @@ CAL(F_sysdays_to_hours, "time_point_cast<hours>(sys_days(ymd) + days)",
     fits32(n) && fits32((static_cast<I128>(h_days_from_civil(p.y, p.m, p.d)) + n) * 24) && fits32(static_cast<I128>(h_days_from_civil(p.y, p.m, p.d)) + n),
     ch::time_point_cast<ch::hours>(sysdays_plus(p.y, p.m, p.d, n32)).time_since_epoch().count())
 
+// abs of durations with narrow reps: domain = the negated count is representable ([time.duration.alg]: d >= zero ? d : -d)
+template <typename D>
+struct F_abs {
+    static constexpr char const* name = "abs";
+    static constexpr bool dom(NArg const& p) { return fits<typename D::rep>(p.n) && fits<typename D::rep>(-static_cast<I128>(p.n)); }
+    static bool in_domain(NArg const& p) { return dom(p); }
+    constexpr auto operator()(NArg const& p) const -> long long
+    {
+        if (!dom(p)) { return 0; }
+        return static_cast<long long>(ch::abs(D{static_cast<typename D::rep>(p.n)}).count());
+    }
+};
+#define ABS_E(D) make_entry<F_abs<D>, tabTicks, ClsPair<D, D>, 64>("chrono::abs(" #D ")")
+
 // ------------------------------------------------------------------ registry
 #define PAIR_CAST(TO, FROM) make_entry<F_cast<TO, FROM>, tabTicks, ClsPair<TO, FROM>, 64>("chrono::duration_cast/time_point_cast<" #TO ">(" #FROM ")")
 #define PAIR_FCR(TO, FROM) make_entry<F_fcr<TO, FROM>, tabTicks, ClsPair<TO, FROM>, 64>("chrono::floor/ceil/round<" #TO ">(" #FROM ")")
@@ -321,6 +335,7 @@ std::vector<Entry> const& entries()
         CE(F_month_plus), CE(F_month_minus), CE(F_month_diff), CE(F_weekday_plus), CE(F_weekday_minus), CE(F_weekday_diff), CE(F_year_plus), CE(F_year_minus),
         CE(F_year_diff), CE(F_ym_plus_months), CE(F_ym_minus_months), CE(F_ym_plus_years), CE(F_ymd_plus_months), CE(F_ymd_minus_months), CE(F_ymd_plus_years),
         CE(F_sysdays_plus), CE(F_sysdays_to_hours),
+        ABS_E(cs16), ABS_E(minutes), ABS_E(days), ABS_E(years), ABS_E(seconds),
 #endif
     };
     return es;
